@@ -325,4 +325,14 @@ def sealedSearch (pf : Bytes → Option Int) (maxKey : Int) (token : Token) (bas
       let startTID := base + ((blocks.take lr.1).map List.length).sum
       search pf maxKey token ⟨startTID, sel.flatten, true⟩
 
+/-- a sequence of `GetTIDsByTokenExpr` calls served by ONE `sealedTokenIndex` (one search request serves every leaf
+of its query through the same index instance).  The index keeps nothing between calls - a new provider over freshly
+selected entries per call - so the model of a sequence is the call-by-call map: the answer to a call depends only on
+its own token.  Each element names its field by index into `fields` (`(base, blocks)` per field). -/
+def sealedSearchSeq (pf : Bytes → Option Int) (maxKey : Int) (fields : List (Nat × List (List Bytes)))
+    (calls : List (Nat × Token)) : List (Option (List Nat)) :=
+  calls.map fun c =>
+    let fb := fields.getD c.1 (0, [])
+    sealedSearch pf maxKey c.2 fb.1 fb.2
+
 end SV.Pattern
